@@ -67,25 +67,27 @@ type Roles struct {
 	// job fields
 	FJobStatus, FJobWg, FJobQueue, FJobAckId, FJobId, FJobData string
 
-	Step        *Func // the dispatcher step (dequeues)
-	HandOff     *Func // sends a job to a pool node
-	NodeFactory *Func // creates a node and spawns its goroutine
-	Completion  *Func // literal served by the pool goroutine
-	DispLoop    *Func // dispatcher goroutine literal
-	SpawnDisp   *Func // function containing the go statement of DispLoop
-	Start       *Func
-	Notify      *Func
-	SendErr     *Func
-	Release     *Func // evaluates the barrier release (Broadcast)
-	WaitFn      *Func // parks on the Cond
-	FreeNode    *Func
-	Reaper      *Func // idle reaper goroutine literal
-	SpawnReaper *Func
-	Listener    *Func // context listener goroutine literal
-	SpawnListen *Func
-	CloseChans  *Func
-	StopTickers *Func
-	StopAll     *Func // stops and removes all idle nodes
+	Step           *Func    // the dispatcher step (dequeues)
+	HandOff        *Func    // sends a job to a pool node
+	NodeFactory    *Func    // creates a node and spawns its goroutine
+	Completion     *Func    // literal served by the pool goroutine
+	DispLoop       *Func    // dispatcher goroutine literal
+	SpawnDisp      *Func    // function containing the go statement of DispLoop
+	FDispDone      string   // field holding the channel the dispatcher goroutine closes when it exits ("" if none)
+	DoneChanFields []string // chan struct{} fields of the worker that are never sent on (closed to announce an exit)
+	Start          *Func
+	Notify         *Func
+	SendErr        *Func
+	Release        *Func // evaluates the barrier release (Broadcast)
+	WaitFn         *Func // parks on the Cond
+	FreeNode       *Func
+	Reaper         *Func // idle reaper goroutine literal
+	SpawnReaper    *Func
+	Listener       *Func // context listener goroutine literal
+	SpawnListen    *Func
+	CloseChans     *Func
+	StopTickers    *Func
+	StopAll        *Func // stops and removes all idle nodes
 
 	NotifyKeys  map[string]bool // callee keys that mean "notify"
 	SendErrKeys map[string]bool
@@ -287,9 +289,35 @@ func resolveRoles(p *Prog) *Roles {
 		r.problem("UNRESOLVED role=%s candidates=%v", role, c)
 		return ""
 	}
-	r.FSignal = pick("signal channel field", fieldOfType(wst, wname, func(t types.Type) bool {
+	// the signal channel is the chan struct{} field that is sent on; a chan struct{} field that is only closed and
+	// received from (a "done" channel) is not it
+	sigCands := fieldOfType(wst, wname, func(t types.Type) bool {
 		return isChanOf(t, func(e types.Type) bool { s, ok := e.Underlying().(*types.Struct); return ok && s.NumFields() == 0 })
-	}))
+	})
+	if len(sigCands) > 1 {
+		sent := map[string]bool{}
+		for _, f := range p.pkgFuncs(modPath) {
+			if f.Body == nil {
+				continue
+			}
+			ast.Inspect(f.Body, func(n ast.Node) bool {
+				if x, ok := n.(*ast.SendStmt); ok {
+					sent[selField(f.Info(), x.Chan)] = true
+				}
+				return true
+			})
+		}
+		var keep []string
+		for _, k := range sigCands {
+			if sent[k] {
+				keep = append(keep, k)
+			} else {
+				r.DoneChanFields = append(r.DoneChanFields, k)
+			}
+		}
+		sigCands = keep
+	}
+	r.FSignal = pick("signal channel field", sigCands)
 	r.FErr = pick("error channel field", fieldOfType(wst, wname, func(t types.Type) bool {
 		return isChanOf(t, func(e types.Type) bool { return e.String() == "error" })
 	}))
@@ -382,6 +410,36 @@ func resolveRoles(p *Prog) *Roles {
 	}
 	if r.SpawnDisp != nil {
 		r.Start = r.one("start (calls the dispatcher spawner)", p.funcsCalling(r.SpawnDisp.Key))
+	}
+	// the dispatcher announces its exit: `defer close(x)` at the top level of the goroutine body, x a channel made in
+	// the spawner and published in a worker field (optional role: absent on a tree whose tear-down does not join)
+	if r.DispLoop != nil && r.SpawnDisp != nil && r.DispLoop.Body != nil {
+		info := r.DispLoop.Info()
+		var closed types.Object
+		for _, st := range r.DispLoop.Body.List {
+			if d, ok := st.(*ast.DeferStmt); ok {
+				if ce := resolveCallee(info, d.Call); ce.Builtin == "close" && len(d.Call.Args) == 1 {
+					closed = rootIdent(info, d.Call.Args[0])
+					if _, isId := ast.Unparen(d.Call.Args[0]).(*ast.Ident); !isId {
+						closed = nil
+					}
+				}
+			}
+		}
+		if closed != nil {
+			ast.Inspect(r.SpawnDisp.Body, func(n ast.Node) bool {
+				if as, ok := n.(*ast.AssignStmt); ok && len(as.Lhs) == len(as.Rhs) {
+					for i, l := range as.Lhs {
+						if fk := selField(info, l); fk != "" {
+							if id, ok := ast.Unparen(as.Rhs[i]).(*ast.Ident); ok && info.ObjectOf(id) == closed {
+								r.FDispDone = fk
+							}
+						}
+					}
+				}
+				return true
+			})
+		}
 	}
 	// functions by the channel/cond operation they perform
 	var notif, senderr, closers []*Func
